@@ -4,12 +4,14 @@ import Gpc.Driver.Utf8
 import Gpc.Driver.Utf
 import Gpc.Driver.Arena
 import Gpc.Driver.Scope
+import Gpc.Driver.Map
 open Gpc.Proto
 
 /-- state of the stateful models (one operation script at a time) -/
 structure St where
   arena : Gpc.Driver.ArenaSt := {}
   scopes : List (Nat × Gpc.Driver.ScopeSt) := []
+  map : Gpc.Driver.MapSt := {}
 
 def dispatch (st : St) (toks : List String) : St × String :=
   match toks with
@@ -19,6 +21,7 @@ def dispatch (st : St) (toks : List String) : St × String :=
   | "utf" :: rest => (st, Gpc.Driver.utf rest)
   | "ar" :: rest => let (a, o) := Gpc.Driver.arenaStep st.arena rest; ({ st with arena := a }, o)
   | "sc" :: rest => let (a, o) := Gpc.Driver.scopeStep st.scopes rest; ({ st with scopes := a }, o)
+  | "map" :: rest => let (a, o) := Gpc.Driver.mapStep st.map rest; ({ st with map := a }, o)
   | _ => (st, "bad-op")
 
 partial def loop (h : IO.FS.Stream) (out : IO.FS.Stream) (st : St) : IO Unit := do
